@@ -24,7 +24,13 @@ fn gen_scenario(r: &mut Rng, k: u64, out: &mut Vec<String>) {
         out.push(format!("mkt setpool {sid} 7 {cur} {}", r.below(3)));
         out.push(format!("mkt dist {sid}")); // initialises the clock (duration 0)
         if split {
-            for t in &ts { out.push(format!("mkt tick {sid} {t}")); out.push(format!("mkt dist {sid}")); }
+            let mut now: u128 = 0;
+            for t in &ts {
+                out.push(format!("mkt tick {sid} {t}")); now += *t as u128;
+                // occasionally move the distribution clock: ahead of `now` (reads as 0 s; the next distribution moves it BACK to now) or behind
+                if r.chance(1, 8) && now < u64::MAX as u128 / 4 { let c = if r.chance(1, 2) { now + r.range(1, 100_000) as u128 } else { now.saturating_sub(r.range(0, 100) as u128) }; out.push(format!("mkt setclock {sid} 0 {c}")); }
+                out.push(format!("mkt dist {sid}"));
+            }
         } else {
             let tot: u128 = ts.iter().map(|t| *t as u128).sum();
             if tot <= u64::MAX as u128 / 2 { out.push(format!("mkt tick {sid} {tot}")); out.push(format!("mkt dist {sid}")); }
@@ -63,11 +69,12 @@ fn main() {
             Some("new") if r[0] == "ok" => {
                 tr.insert(sid.clone(), Track { unit: t[4].parse().unwrap(), factor: t[17].parse().unwrap(), min: t[18].parse().unwrap(), all_ok: true, ..Default::default() });
             }
+            Some("setclock") if r[0] == "ok" => { if t[3] == "0" { if let Some(x) = tr.get_mut(&sid) { x.last_clock = Some(t[4].parse().unwrap()); x.all_ok = false; } out.stat("setclock"); } }
             Some("setpool") if r[0] == "ok" => { if let Some(x) = tr.get_mut(&sid) { x.start = after.as_ref().unwrap().pools[7].0; } }
             Some("dist") if r[0] != "bad-op" => {
                 let (b, a) = (before.unwrap(), after.unwrap());
                 let x = tr.get_mut(&sid).unwrap();
-                let dur = b.now - x.last_clock.unwrap_or(b.now);
+                let dur = b.now.saturating_sub(x.last_clock.unwrap_or(b.now)); // a clock ahead of `now` reads as 0 s
                 x.last_clock = Some(b.now);
                 let cur = b.pools[7].0;
                 // every pool except the long position-impact amount is untouched
